@@ -120,11 +120,12 @@ TargetSide(reg, repo) == reg # "src" \/ repo \in MirrorRepos
 Repair(st, r, img) == IF img = "H" THEN {IF x[1] = r[1] /\ x[2] = r[2] /\ x[4] = "H" THEN <<x[1], x[2], x[3], x[4], 1>> ELSE x : x \in st}
                       ELSE st
 \* a tag level write reaches a registry: the monitor's obligation O3 is evaluated on the spot
-Write(r, img) ==
-  /\ world' = Repair(SetTag(world, r, img, 1), r, img)
+WriteC(r, img, c) ==
+  /\ world' = IF c = 1 THEN Repair(SetTag(world, r, img, 1), r, img) ELSE SetTag(world, r, img, 0)
   /\ puts' = puts \cup {r}
   /\ nw' = nw + 1
   /\ bkbad' = IF bkbad # "" THEN bkbad ELSE OverwriteBad(conf, before, world, r, img)
+Write(r, img) == WriteC(r, img, 1)
 
 Load(s) ==
   /\ conf' = s.conf /\ plan' = s.plan
@@ -249,14 +250,18 @@ Acquire(k) ==
 
 BkRead(k) ==
   /\ MayStep(k) /\ proc[k].pc = "bkread"
-  /\ LET b == Img(world, TgRef(k)) IN       \* a holed image cannot be copied: "Failed to backup existing image", go on
-     Set(k, IF b = "" \/ Compl(world, TgRef(k)) = 0 THEN [proc[k] EXCEPT !.pc = "cpread"] ELSE [proc[k] EXCEPT !.pc = "bkwrite", !.img = b])
+  /\ LET b == Img(world, TgRef(k))
+         r == BackupRef(Ent(k), Pr(k))
+         \* a holed image cannot be copied to another repository ("Failed to backup existing image",
+         \* the run goes on); inside one repository ImageCopy moves no blobs and just tags it
+         fails == Compl(world, TgRef(k)) = 0 /\ <<r[1], r[2]>> # <<Ent(k).treg, proc[k].tr>>
+     IN Set(k, IF b = "" \/ fails THEN [proc[k] EXCEPT !.pc = "cpread"] ELSE [proc[k] EXCEPT !.pc = "bkwrite", !.img = b])
   /\ keepW /\ keepR /\ UNCHANGED <<held, cache, errs>>
 
 BkWrite(k) ==
   /\ MayStep(k) /\ proc[k].pc = "bkwrite"
   /\ LET r == BackupRef(Ent(k), Pr(k)) IN
-     IF Img(world, r) # proc[k].img THEN Write(r, proc[k].img) ELSE keepW
+     IF Img(world, r) # proc[k].img THEN WriteC(r, proc[k].img, Compl(world, TgRef(k))) ELSE keepW
   /\ Set(k, [proc[k] EXCEPT !.pc = "cpread", !.img = ""])
   /\ keepR /\ UNCHANGED <<held, cache, errs>>
 
